@@ -105,6 +105,25 @@ func ModReach(p *core.Prog, roots ...*ssa.Function) []*ssa.Function {
 		for _, af := range f.AnonFuncs {
 			visit(af)
 		}
+		// function values handed to library code (g.Go(worker), g.Go(run.loop)): the call graph has the edge from the library's
+		// goroutine, not from here
+		for _, b := range f.Blocks {
+			for _, in := range b.Instrs {
+				if mc, ok := in.(*ssa.MakeClosure); ok {
+					if g, ok := mc.Fn.(*ssa.Function); ok {
+						visit(g)
+					}
+					continue
+				}
+				if ci, ok := in.(ssa.CallInstruction); ok {
+					for _, a := range ci.Common().Args {
+						if g, ok := a.(*ssa.Function); ok {
+							visit(g)
+						}
+					}
+				}
+			}
+		}
 	}
 	for _, r := range roots {
 		visit(r)
@@ -114,8 +133,8 @@ func ModReach(p *core.Prog, roots ...*ssa.Function) []*ssa.Function {
 
 // PathInfo is one feasible path to an accept site.
 type PathInfo struct {
-	Path   *core.Path
-	Env    *core.Env
+	Desc   string
+	Events []Event // the path's effects in program order (calls that were not opened, stores, appends)
 	Atoms  []core.Atom
 	Fields map[string]*core.Term // TTL IP RTT IsDest
 }
@@ -141,173 +160,261 @@ func isNamed(t types.Type, pkgPath, name string) bool {
 	return n.Obj().Name() == name && n.Obj().Pkg() != nil && n.Obj().Pkg().Path() == pkgPath
 }
 
-// AcceptSites builds the decision table of a driver's matcher.
-func AcceptSites(p *core.Prog, d Driver) []AcceptSite {
-	var out []AcceptSite
-	for _, f := range ModReach(p, d.ReceiveProbe) {
+// typedFieldKey names a struct field by its owner type: "pkg.Type.field".
+func typedFieldKey(fa *ssa.FieldAddr) (string, *types.Named) {
+	pt, ok := fa.X.Type().Underlying().(*types.Pointer)
+	if !ok {
+		return "", nil
+	}
+	nt, ok := pt.Elem().(*types.Named)
+	if !ok {
+		return "", nil
+	}
+	st, ok := nt.Underlying().(*types.Struct)
+	if !ok || nt.Obj().Pkg() == nil {
+		return "", nil
+	}
+	return nt.Obj().Pkg().Name() + "." + nt.Obj().Name() + "." + st.Field(fa.Field).Name(), nt
+}
+
+// typedFieldsTouched: the fields of struct types declared in package pkg that the functions of pkg reachable from the roots
+// read / write, keyed by owner type (so a table moved into a struct of its own is still one object).
+func typedFieldsTouched(p *core.Prog, pkg *types.Package, roots ...*ssa.Function) (reads, writes map[string]bool) {
+	reads, writes = map[string]bool{}, map[string]bool{}
+	for _, f := range ModReach(p, roots...) {
+		if core.FuncPkg(f) != pkg {
+			continue
+		}
 		for _, b := range f.Blocks {
 			for _, in := range b.Instrs {
-				al, ok := in.(*ssa.Alloc)
-				if !ok || !al.Heap || !isNamed(al.Type(), core.ModulePath+"/common", "ProbeResponse") {
+				fa, ok := in.(*ssa.FieldAddr)
+				if !ok {
 					continue
 				}
-				site := AcceptSite{Fn: f, Alloc: al}
-				// the return that hands the allocation out
-				for _, rb := range f.Blocks {
-					if ret, ok := rb.Instrs[len(rb.Instrs)-1].(*ssa.Return); ok {
-						for _, rv := range ret.Results {
-							if rv == ssa.Value(al) {
-								site.Ret = ret
-							}
-						}
-					}
-				}
-				if site.Ret == nil {
-					out = append(out, site)
+				k, nt := typedFieldKey(fa)
+				if k == "" || nt.Obj().Pkg() != pkg {
 					continue
 				}
-				paths, _ := core.EnumPaths(f, site.Ret.Block(), 5000)
-				site.All = len(paths)
-				for _, pa := range paths {
-					env := core.NewEnv(p, pa)
-					atoms := env.Atoms()
-					if !core.Feasible(atoms) {
-						site.Pruned++
-						continue
-					}
-					fields := map[string]*core.Term{}
-					st := al.Type().Underlying().(*types.Pointer).Elem().Underlying().(*types.Struct)
-					for i := 0; i < st.NumFields(); i++ {
-						fields[st.Field(i).Name()] = env.LoadField(al, st.Field(i).Name(), site.Ret, st.Field(i).Type())
-					}
-					// checks extracted into helpers of the driver's package are opened: one virtual path per
-					// success path of the helper, with the helper's conditions lifted into the matcher's vocabulary
-					for _, av := range expandHelperAtoms(p, d, atoms, 0) {
-						variant := av.resolved()
-						if !core.Feasible(variant) {
-							continue
-						}
-						vfields := fields
-						if len(av.Subs) > 0 {
-							vfields = map[string]*core.Term{}
-							for k, v := range fields {
-								vfields[k] = applySubs(v, av.Subs)
-							}
-						}
-						site.Paths = append(site.Paths, PathInfo{Path: pa, Env: env, Atoms: variant, Fields: vfields})
-						if len(site.Paths) > 4000 {
-							break
-						}
-					}
+				if core.IsSyncType(fa.Type().Underlying().(*types.Pointer).Elem()) {
+					continue
 				}
-				// an accept site in a helper the matcher tail-calls: compose the helper's paths with the caller's
-				site = composeThroughCallers(p, d, site)
-				out = append(out, site)
+				if addrWritten(fa, 0) {
+					writes[k] = true
+				} else {
+					reads[k] = true
+				}
 			}
 		}
 	}
+	return
+}
+
+var sentTableMemo = map[*ssa.Function]map[string]bool{}
+
+// SentTableKeys: the storage through which SendProbe tells ReceiveProbe what was emitted – typed fields of the driver's package
+// that SendProbe's tree writes and ReceiveProbe's tree reads.
+func SentTableKeys(p *core.Prog, d Driver) map[string]bool {
+	if m, ok := sentTableMemo[d.ReceiveProbe]; ok {
+		return m
+	}
+	pkg := core.FuncPkg(d.ReceiveProbe)
+	_, w := typedFieldsTouched(p, pkg, d.SendProbe)
+	r, _ := typedFieldsTouched(p, pkg, d.ReceiveProbe)
+	out := map[string]bool{}
+	for k := range w {
+		if r[k] {
+			out[k] = true
+		}
+	}
+	sentTableMemo[d.ReceiveProbe] = out
 	return out
 }
 
-// composeThroughCallers prepends, to every path of an accept site that lives in a callee of the matcher, the conditions
-// of each caller path that reaches the (tail) call, lifting the callee's conditions and field values into the caller's
-// vocabulary. A helper shared by several arms (each arm a method of its own) is composed along every call chain. The
-// outermost frame is the function ReceiveProbe calls, as for sites written inline.
-func composeThroughCallers(p *core.Prog, d Driver, site AcceptSite) AcceptSite {
-	if site.Ret == nil {
-		return site
-	}
-	paths, outer, ok := composeUp(p, d, site.Fn, site.Paths, 0)
-	if !ok {
-		return site
-	}
-	site.Paths = paths
-	site.Fn = outer
-	return site
+// readsSentTable: f (or a function of its package it calls) reads one of the sent-table fields: f is a lookup.
+func readsSentTable(p *core.Prog, d Driver, f *ssa.Function) bool {
+	return readsSentTableX(p, d, f, true)
 }
 
-func composeUp(p *core.Prog, d Driver, fn *ssa.Function, inner []PathInfo, depth int) ([]PathInfo, *ssa.Function, bool) {
-	chains := callChains(p, d.ReceiveProbe, fn)
-	if len(chains) == 0 || depth > 3 {
-		return inner, fn, true
+// readsSentTableX with deep=false looks at f's own body only (the accessor proper, not a matcher arm that calls one).
+func readsSentTableX(p *core.Prog, d Driver, f *ssa.Function, deep bool) bool {
+	keys := SentTableKeys(p, d)
+	pkg := core.FuncPkg(d.ReceiveProbe)
+	fs := []*ssa.Function{f}
+	if deep {
+		fs = ModReach(p, f)
 	}
-	direct := false
-	for _, ch := range chains {
-		if len(ch) <= 1 {
-			direct = true
+	for _, g := range fs {
+		if core.FuncPkg(g) != pkg {
+			continue
 		}
-	}
-	if direct {
-		return inner, fn, true // called directly by ReceiveProbe: already the outermost frame
-	}
-	var callers []*ssa.Call
-	seen := map[*ssa.Call]bool{}
-	for _, ch := range chains {
-		cs := ch[len(ch)-1]
-		if !seen[cs] {
-			seen[cs] = true
-			callers = append(callers, cs)
-		}
-	}
-	var out []PathInfo
-	var outer *ssa.Function
-	for _, cs := range callers {
-		h := cs.Parent()
-		// tail position: some return of h forwards both results of cs
-		tail := false
-		for _, b := range h.Blocks {
-			if ret, isRet := b.Instrs[len(b.Instrs)-1].(*ssa.Return); isRet && len(ret.Results) == 2 {
-				e0, ok0 := ret.Results[0].(*ssa.Extract)
-				e1, ok1 := ret.Results[1].(*ssa.Extract)
-				if ok0 && ok1 && e0.Tuple == ssa.Value(cs) && e1.Tuple == ssa.Value(cs) {
-					tail = true
+		for _, b := range g.Blocks {
+			for _, in := range b.Instrs {
+				if fa, ok := in.(*ssa.FieldAddr); ok {
+					if k, _ := typedFieldKey(fa); keys[k] {
+						return true
+					}
 				}
 			}
 		}
-		if !tail {
-			return nil, nil, false
+	}
+	return false
+}
+
+// touchesPacket: f (or a function of its package it calls) handles decoded packet data – a value whose type is declared in the
+// packets package or in gopacket. A function that reads the sent table without looking at the packet is an accessor (a lookup by
+// key); one that does both is an arm of the matcher.
+func touchesPacket(p *core.Prog, f *ssa.Function) bool {
+	isPkt := func(t types.Type) bool {
+		if pt, ok := t.Underlying().(*types.Pointer); ok {
+			t = pt.Elem()
 		}
-		var composed []PathInfo
-		cpaths, _ := core.EnumPaths(h, cs.Block(), 5000)
-		for _, pa := range cpaths {
-			env := core.NewEnv(p, pa)
-			atoms := env.Atoms()
-			if !core.Feasible(atoms) {
-				continue
+		nt, ok := t.(*types.Named)
+		if !ok || nt.Obj().Pkg() == nil {
+			return false
+		}
+		path := nt.Obj().Pkg().Path()
+		return path == core.ModulePath+"/packets" || strings.Contains(path, "gopacket")
+	}
+	pkg := core.FuncPkg(f)
+	for _, g := range ModReach(p, f) {
+		if core.FuncPkg(g) != pkg {
+			continue
+		}
+		for _, pa := range g.Params {
+			if isPkt(pa.Type()) {
+				return true
 			}
-			// the caller's own checks may sit in predicate helpers as well
-			for _, cav := range expandHelperAtoms(p, d, atoms, 0) {
-				catoms := cav.resolved()
-				if !core.Feasible(catoms) {
+		}
+		for _, b := range g.Blocks {
+			for _, in := range b.Instrs {
+				if v, ok := in.(ssa.Value); ok && v.Type() != nil {
+					if _, isTuple := v.Type().(*types.Tuple); !isTuple && isPkt(v.Type()) {
+						return true
+					}
+				}
+			}
+		}
+	}
+	return false
+}
+
+func hasLoop(f *ssa.Function) bool {
+	for _, b := range f.Blocks {
+		for _, s := range b.Succs {
+			if s.Dominates(b) {
+				return true
+			}
+		}
+	}
+	return false
+}
+
+func isProbeResponseAlloc(in ssa.Instruction) (*ssa.Alloc, bool) {
+	al, ok := in.(*ssa.Alloc)
+	if !ok || !al.Heap || !isNamed(al.Type(), core.ModulePath+"/common", "ProbeResponse") {
+		return nil, false
+	}
+	return al, true
+}
+
+// AcceptSites builds the decision table of a driver's matcher: the inlined return paths of ReceiveProbe (helpers of the driver's
+// package opened in place, whatever their signature) that hand out a freshly allocated ProbeResponse. Sent-probe lookups and
+// helpers that loop stay opaque calls: the former are what R01.4 wants to see, the latter are computations, not decisions.
+func AcceptSites(p *core.Prog, d Driver) []AcceptSite {
+	reach := ModReach(p, d.ReceiveProbe)
+	var allocs []*ssa.Alloc
+	allocIn := map[*ssa.Function]bool{}
+	for _, f := range reach {
+		for _, b := range f.Blocks {
+			for _, in := range b.Instrs {
+				if al, ok := isProbeResponseAlloc(in); ok {
+					allocs = append(allocs, al)
+					allocIn[f] = true
+				}
+			}
+		}
+	}
+	reachesAlloc := map[*ssa.Function]bool{}
+	for _, f := range reach {
+		for _, g := range ModReach(p, f) {
+			if allocIn[g] {
+				reachesAlloc[f] = true
+				break
+			}
+		}
+	}
+	stop := func(h *ssa.Function) bool {
+		if reachesAlloc[h] {
+			return false
+		}
+		return hasLoop(h) || readsSentTable(p, d, h) && !touchesPacket(p, h)
+	}
+	// a helper that hands out an object filled in behind its back (a decoder: the address went to library code) is a source of
+	// packet data, known to the rules by its name; opening it would lose that
+	opaque := func(h *ssa.Function, inner []IPath) bool {
+		for _, ip := range inner {
+			for ri, r := range ip.Results {
+				if ri < h.Signature.Results().Len() && isErrorType(h.Signature.Results().At(ri).Type()) {
 					continue
 				}
-				for _, in := range inner {
-					variant := append([]core.Atom{}, catoms...)
-					for _, a := range in.Atoms {
-						variant = append(variant, core.Atom{Cond: applySubs(liftWithEnv(env, a.Cond, cs), cav.Subs), Sign: a.Sign, Block: cs.Block()})
+				if r != nil && r.Has(func(x *core.Term) bool {
+					if x.Op != "alloc" {
+						return false
 					}
-					if !core.Feasible(variant) {
-						continue
+					al, ok := x.Val.(*ssa.Alloc)
+					if !ok {
+						return true
 					}
-					fields := map[string]*core.Term{}
-					for k, v := range in.Fields {
-						fields[k] = applySubs(liftWithEnv(env, v, cs), cav.Subs)
-					}
-					composed = append(composed, PathInfo{Path: pa, Env: env, Atoms: variant, Fields: fields})
+					_, isResp := isProbeResponseAlloc(al)
+					return !isResp
+				}) {
+					return true
 				}
 			}
 		}
-		up, o, ok := composeUp(p, d, h, composed, depth+1)
-		if !ok {
-			return nil, nil, false
+		return false
+	}
+	ips := InlinedPaths(p, d.ReceiveProbe, inlineOpts{pkg: core.FuncPkg(d.ReceiveProbe), stop: stop, maxDepth: 4, opaque: opaque})
+	sites := map[*ssa.Alloc]*AcceptSite{}
+	for _, al := range allocs {
+		sites[al] = &AcceptSite{Fn: al.Parent(), Alloc: al}
+	}
+	for _, ip := range ips {
+		if len(ip.Results) == 0 || ip.Results[0] == nil || ip.Results[0].Op != "alloc" {
+			continue
 		}
-		out = append(out, up...)
-		outer = o
+		al, ok := ip.Results[0].Val.(*ssa.Alloc)
+		if !ok || sites[al] == nil {
+			continue
+		}
+		site := sites[al]
+		site.Ret = ip.Ret
+		site.All++
+		fields := map[string]*core.Term{}
+		st := al.Type().Underlying().(*types.Pointer).Elem().Underlying().(*types.Struct)
+		for i := 0; i < st.NumFields(); i++ {
+			fields[st.Field(i).Name()] = &core.Term{Op: "zero", Name: st.Field(i).Type().String(), Typ: st.Field(i).Type()}
+		}
+		for _, ev := range ip.Events {
+			if ev.Kind != "store" {
+				continue
+			}
+			if sto, ok := ev.Instr.(*ssa.Store); ok {
+				if fa, ok := sto.Addr.(*ssa.FieldAddr); ok && fa.X == ssa.Value(al) {
+					fields[st.Field(fa.Field).Name()] = ev.Val
+				}
+			}
+		}
+		if len(site.Paths) < 4000 {
+			site.Paths = append(site.Paths, PathInfo{Desc: ip.Desc, Atoms: ip.Atoms, Fields: fields, Events: ip.Events})
+		}
 	}
-	if outer == nil {
-		return nil, nil, false
+	var out []AcceptSite
+	for _, al := range allocs {
+		out = append(out, *sites[al])
 	}
-	return out, outer, true
+	sort.SliceStable(out, func(i, j int) bool { return out[i].Alloc.Pos() < out[j].Alloc.Pos() })
+	return out
 }
 
 // valueSub: result #idx of the call at site is, on the chosen success path of the callee, the term repl (caller's vocabulary).
